@@ -774,6 +774,52 @@ fn fp_tree_clean(m: &DecisionTree<f64, usize>, p: &P, f: &mut Fingerprint) {
     fp_tree(m, &x, &q, false, f)
 }
 
+/// f32 feature whose neighbouring values are ADJACENT floats (time stamps around 1.7e9, where
+/// the f32 spacing is 128): the mid point used as split value rounds onto one of them, which
+/// produces degenerate nodes (a node flagged as leaf that still owns one child)
+fn tree_adjacent_data(p: &P) -> (Array2<f32>, Array1<usize>) {
+    let t0 = 1_700_000_128.0_f32;
+    let t1 = 1_700_000_256.0_f32;
+    let n = 9 + (p.seed % 4) as usize * 2;
+    let mut r = p.rng(0xAD1);
+    let x = Array2::from_shape_fn((n, 2), |(i, j)| {
+        if j == 0 {
+            if i < 4 {
+                0.1 * i as f32
+            } else {
+                1.0 + 0.1 * (i - 4) as f32
+            }
+        } else if i >= 4 && (i % 2 == 1 || i == n - 1) {
+            t1
+        } else {
+            t0
+        }
+    });
+    let y = Array1::from_shape_fn(n, |i| if i < 4 { 0 } else if x[[i, 1]] == t1 { 2 } else { 1 });
+    let _ = r.next_u64();
+    (x, y)
+}
+fn build_tree_adjacent(p: &P) -> DecisionTree<f32, usize> {
+    let (x, y) = tree_adjacent_data(p);
+    DecisionTree::params().max_depth(Some(4)).fit(&DatasetBase::new(x, y)).expect("tree fit")
+}
+fn fp_tree_adjacent(m: &DecisionTree<f32, usize>, p: &P, f: &mut Fingerprint) {
+    let (x, _) = tree_adjacent_data(p);
+    let q = ndarray::array![[0.5f32, 0.0], [1.25, 1.6e9], [-3.0, 1.7e9], [1.15, 1_700_000_256.0]];
+    // the tie-free parts only (features() order etc. are covered elsewhere)
+    let mut acc = NodeAcc::default();
+    for n in m.iter_nodes() {
+        acc.push(n);
+    }
+    acc.emit("nodes", f);
+    f.one("num_leaves", m.num_leaves());
+    f.one("max_depth", m.max_depth());
+    f.seq("mean_impurity_decrease", m.mean_impurity_decrease());
+    f.seq("feature_importance", m.feature_importance());
+    f.arr("predict_train", &m.predict(&x));
+    f.arr("predict_query", &m.predict(&q));
+}
+
 fn build_tree_node(p: &P) -> TreeNode<f64, usize> {
     build_tree_clean(p).root_node().clone()
 }
@@ -896,6 +942,7 @@ fn register_trees(r: &mut Registry) {
     r.model::<DecisionTree<f64, bool>>("tree_model_bool", K, T_M, c20, build_tree::<bool>, fp_tree_model::<bool>, Some(|a, b| a == b));
     r.model::<DecisionTree<f64, String>>("tree_model_entropy_string", K, T_M, c20, build_tree_entropy::<String>, fp_tree_model::<String>, Some(|a, b| a == b));
     r.model::<DecisionTree<f64, usize>>("tree_model_clean", K, T_M, c20, build_tree_clean, fp_tree_clean, Some(|a, b| a == b));
+    r.model::<DecisionTree<f32, usize>>("tree_model_adjacent_floats_f32", K, T_M, c20, build_tree_adjacent, fp_tree_adjacent, Some(|a, b| a == b));
     r.model::<TreeNode<f64, usize>>("tree_node", K, &["TreeNode"], None, build_tree_node, fp_tree_node, Some(|a, b| a == b));
     r.model::<TreeParams>("tree_params", K, &["DecisionTreeParams", "DecisionTreeValidParams", "SplitQuality"], c20, build_tree_params, fp_tree_params, Some(|a, b| a == b));
     r.model::<TreeParams>("tree_params_invalid", K, &["DecisionTreeParams"], None, build_tree_params_invalid, fp_tree_params, Some(|a, b| a == b));
